@@ -83,6 +83,11 @@ def run(tier, wd):
                 if rnd.random() < 0.3:
                     # the same spec-less command after it already ran (same application object)
                     members.append({"si": si, "env": env, "argv": list(line), "prerun": [[], list(line)]})
+                elif rnd.random() < 0.2 and explicit:
+                    # ... or after it ran under an explicit spec string that was then taken away again (Spec = "")
+                    members.append({"si": si, "env": env, "argv": list(line), "prerun": [[], list(line)], "prespec": explicit})
+                    # ... or after the generated spec, which Run stores in the Spec field, was taken away again
+                    members.append({"si": si, "env": env, "argv": list(line), "prerun": [[], list(line)], "prespec": ""})
                 groups.append({"rel": "same", "members": members})
     # unbounded part (binding C): the automaton the library compiles for the spec-less command is language-equivalent to
     # Seq(Optional(Group(all)), Arg...) - and so is the one compiled from the explicit string
@@ -108,6 +113,16 @@ def run(tier, wd):
                 want = ("Usage: app " + usage_expect[grp["members"][0]["si"]]).rstrip()
                 if r0["usage"].rstrip() != want:
                     v = "violation:usage line of the spec-less command is %r, expected %r" % (r0["usage"], want)
+            if v == "ok":
+                # the same for the spec-less members that ran before on the same object
+                for k_, m_ in enumerate(grp["members"]):
+                    rk = rs[k_]
+                    if k_ >= 2 and rk.get("usage") is not None and rk.get("err"):
+                        usage_checked += 1
+                        want = ("Usage: app " + usage_expect[grp["members"][0]["si"]]).rstrip()
+                        if rk["usage"].rstrip() != want:
+                            v = "violation:after earlier runs (%s, spec then %r) the usage line of the spec-less command is %r, expected %r" % (
+                                m_.get("prerun"), m_.get("prespec"), rk["usage"], want)
             if v == "ok" and grp["members"][0].get("posthelp") and not (r0.get("specerr") or r0.get("panic") or r0.get("hang") or r0.get("crash")):
                 usage_checked += 1
                 want = ("Usage: app " + usage_expect[grp["members"][0]["si"]]).rstrip()
@@ -127,6 +142,15 @@ def run(tier, wd):
         if js and not c.get("greedy"):
             rep.violation("%s spec: " % ("missing" if its[c["ti"]]["nodes"][0]["spec"] == "" else "explicit") + tc.describe(trs_t, c) + ": " + "; ".join(t for _, t in js),
                           tc.replay_obj(trs_t, c))
+    # the usage line of the spec-less command is, character for character, the one of its explicit twin
+    by = {}
+    for c, r in rows_t:
+        if not r.get("skipped") and r.get("usages"):
+            by[(c["ti"], tuple(c["argv"]))] = r["usages"][0]
+    for (ti, argv), u in sorted(by.items()):
+        if ti % 2 == 0 and (ti + 1, argv) in by and by[(ti + 1, argv)] != u:
+            c0 = [c for c, r in rows_t if c["ti"] == ti and tuple(c["argv"]) == argv][0]
+            rep.violation("argv=%s: usage line of the spec-less command %r, of its twin with `[OPTIONS] X` %r" % (list(argv), u, by[(ti + 1, argv)]), tc.replay_obj(trs_t, c0))
     rep.cov["command_tree_vectors"] = len(rows_t)
     gc.finish_groups(rep, progs, specs, out,
                      "a group = one program (0-3 options out of -a/--aa, -b, -o/--out; 0-3 arguments out of X, Y, X1_ in every order; options declared first, "
